@@ -26,7 +26,7 @@ type FuncResult struct {
 func newExec(P *Program, DB *SpecDB, S *Sorts, mode Mode) *Exec {
 	return &Exec{P: P, DB: DB, S: S, mode: mode, assumed: map[string]bool{}, counters: map[string]int{},
 		writes: map[*ssa.BasicBlock]map[string]bool{}, inlined: map[string]bool{}, ufDecl: S.uf,
-		constGlobals: map[string]bool{}, ghost: map[string]Val{}}
+		constGlobals: map[string]bool{}, ghost: map[string]Val{}, sentAssumed: map[string]bool{}}
 }
 
 // VerifyFunc generates the obligations of one function under contract.
